@@ -78,6 +78,9 @@ def build(rng, cls):
         # for the plain traditional settings the way of combining the horizontals is a genuine option (the other classes carry it as a fixed discriminator)
         kwargs["method_to_combine_horizontals"] = str(rng.choice(["squared_average", "arithmetic_mean", "total_horizontal_energy", "maximum_horizontal_value", "geometric_mean",
                                                                   "vector_summation", "quadratic_mean"]))
+    if rng.random() < 0.3:
+        # an object that came from a file written by another release carries that release's version string
+        kwargs["hvsrpy_version"] = str(rng.choice(["1.0.0", "2.0.0rc1", "0.4.3"]))
     s = getattr(hvsrpy.settings, cls)(**copy.deepcopy(kwargs))
     # some attributes are changed afterwards by assignment / in place
     for a in list(s.attrs):
@@ -215,6 +218,22 @@ def independence_clause(cl, rng, n, replay):
         mode = j // len(CLASSES) % 2
         a = C() if mode == 0 else C(**{k: v for k, v in shared.items() if k in C().attrs})
         b = C() if mode == 0 else C(**{k: v for k, v in shared.items() if k in C().attrs})
+        if mode == 0 and "fft_settings" in a.attrs and hasattr(a, "processing_method") and j % 2 == 0:
+            # a history of use: both objects have been through process() (which completes fft_settings), with recordings of different lengths
+            from bounded import refproc as rp
+            fcs = [1.0, 3.0, 9.0]
+            for obj, N in ((a, 300), (b, 40000)):
+                obj.smoothing = dict(operator="konno_and_ohmachi", bandwidth=40., center_frequencies_in_hz=list(fcs))
+                before_other = content((b if obj is a else a).fft_settings)
+                hvsrpy.process([rp.mk_record(*rp.gen_window(rng, N=N, dt=0.01))], obj)
+                if content((b if obj is a else a).fft_settings) != before_other:
+                    cl.fail("hvsrpy.processing.prepare_fft_settings", f"processing with one {cls} changed the fft_settings of another one: {before_other} -> "
+                            f"{content((b if obj is a else a).fft_settings)}", signature="settings:shared-through-processing")
+                    return
+            if a.fft_settings is not None and a.fft_settings is b.fft_settings:
+                cl.fail("hvsrpy.processing.prepare_fft_settings", f"after processing, two {cls} objects hold one and the same fft_settings dictionary", signature="settings:shared-through-processing")
+                return
+            baseline = {x: content(getattr(C(), x)) for x in C().attrs}
         snap_b = {x: content(getattr(b, x)) for x in b.attrs}
         snap_args = content(shared)
         touched = []
